@@ -86,9 +86,11 @@ def normpath (p : Bytes) : Bytes :=
 
 /-! ### percent coding -/
 
-/-- `_ALWAYS_SAFE` plus the default `safe='/'` of `quote_from_bytes`. -/
+/-- `_ALWAYS_SAFE` plus the default `safe='/'` of `quote_from_bytes`.  The Python function is defined
+    on bytes (0..255) only; list elements outside that range are not bytes and are passed through
+    unchanged, so that the coding theorems (`unquote_quote`) need no range hypothesis. -/
 def isSafe (n : Nat) : Bool :=
-  isAlpha n || isDigit n || n == 95 || n == 46 || n == 45 || n == 126 || n == 47
+  isAlpha n || isDigit n || n == 95 || n == 46 || n == 45 || n == 126 || n == 47 || decide (256 ≤ n)
 
 def hex (n : Nat) : Nat := if n < 10 then 48 + n else 55 + n
 
@@ -202,11 +204,16 @@ inductive Norm where
 def urn : Bytes := [117, 114, 110]
 
 /-- does `path` (after leading separators) start with a drive `X:`? (paths.py:98-107) or contain a
-    backslash, or start with two slashes (UNC for ntpath.splitdrive)? -/
+    backslash, or start with two slashes (UNC for ntpath.splitdrive), or have ':' as second character
+    (a drive for ntpath.splitdrive, whatever the first character: `*:/x`)? -/
 def windowsForm (path : Bytes) : Bool :=
   path.contains 92 || startsWith path [47, 47] ||
     (match path.dropWhile (· == 47) with
      | c :: 58 :: _ => isAlpha c
+     | _ => false) ||
+    -- `ntpath.splitdrive(path)[0]` (paths.py:111): ANY character followed by ':' is a drive
+    (match path with
+     | _ :: 58 :: _ => true
      | _ => false)
 
 /-- `LocationPath.from_uri(uri)` restricted to the branches that give a LocationPosixPath;
